@@ -269,6 +269,12 @@ def _smooth_ranking(rc: RuleCtx):
                 benv[n] = ev.symbol(n + "@list")
         out = ev.eval_loop_body(fi, loop, benv)
         app_events = [e for e in out.events if e.kind == "append"]
+        # a float array preallocated with np.zeros(len(knees)) and filled at the loop position collects the same values
+        from ..gvn import Event as _Ev
+        for e_ in out.events:
+            if e_.kind == "store" and len(e_.args) == 2 and isinstance(e_.args[0], Rat) and e_.args[0].equals(b_.idx) and b_.lo.is_zero() \
+                    and isinstance(env.get(e_.target), Rat) and env[e_.target].is_zero():
+                app_events.append(_Ev(e_.guard, "append", e_.target, (e_.args[1],), e_.node))
         ki = _at(knees, i)
         j = _at(knees, C(0))
         klast = _at(knees, C(-1))
